@@ -46,7 +46,8 @@ def to_us(t):
 
 
 def is_utc(t):
-    return t.tzinfo is not None and t.utcoffset() == dt.timedelta(0)
+    """Aware and in UTC - a zone that merely happens to be at +00:00 right now (Europe/London in winter) is not UTC."""
+    return t.tzinfo is not None and t.utcoffset() == dt.timedelta(0) and (t.tzinfo is UTC or t.tzinfo == UTC)
 
 
 class C08Alphabet(alphabet.Alphabet):
@@ -65,6 +66,7 @@ class C08Alphabet(alphabet.Alphabet):
         zs = ["America/Los_Angeles", "Australia/Lord_Howe", "Asia/Kathmandu"] if wide else ["America/Los_Angeles"]
         for z in zs:
             reps["zi-" + z.split("/")[1]] = c.astimezone(zoneinfo.ZoneInfo(z))
+        reps["zi-London"] = c.astimezone(zoneinfo.ZoneInfo("Europe/London"))   # offset zero in winter, yet not UTC
         local = c.astimezone(tz)
         reps["naive-local"] = local.replace(tzinfo=None)  # fold is preserved by replace()
         if special and special[0] == zone:
@@ -84,6 +86,11 @@ class C08Alphabet(alphabet.Alphabet):
         # instants used as comparison values (all aware): the three of the cluster in UTC plus other representations
         self.rhs = [c - US, c, c + US, c - 2 * US, c + 2 * US] + [v for r, v in reps.items() if v.tzinfo is not None and r != "utc"][:3]
         self.rhs.append((c + US).astimezone(dt.timezone(dt.timedelta(hours=-8))))
+        if special:
+            # the same wall-clock time of a repeated (or skipped) hour with fold=0 and fold=1: equal and equally hashed
+            # as Python objects, yet two different instants
+            wall = special[1].replace(tzinfo=zoneinfo.ZoneInfo(special[0]))
+            self.rhs += [wall.replace(fold=1), wall.replace(fold=0)]
         # update functions
         plus = dt.timezone(dt.timedelta(hours=10, minutes=30))
         refmodel.UPD_FN.update(
